@@ -81,7 +81,7 @@ def occa_hash_full(data):
 
 
 # ----------------------------------------------------------------------------- include expansion (oracle)
-INC_RE = re.compile(r'^#include "([^"]*)"', re.M)
+INC_RE = re.compile(r'^#include (?:"([^"]*)"|<([^">]*)>)', re.M)   # quoted, or angle-bracket form (C07 corpus)
 DEF_RE = re.compile(r"^#define (V\d+) (\d+)\s*$")
 
 
@@ -102,7 +102,7 @@ def expand_defs(text, files, defs, depth=0):
             continue
         m = INC_RE.match(line)
         if m:
-            p = m.group(1)
+            p = m.group(1) if m.group(1) is not None else m.group(2)
             if p not in files:
                 return False
             if not expand_defs(files[p], files, defs, depth + 1):
@@ -115,7 +115,7 @@ def expand_defs(text, files, defs, depth=0):
 
 
 def includes_of(text):
-    return INC_RE.findall(text)
+    return [a or b for a, b in INC_RE.findall(text)]
 
 
 def reaches(files, start, target, seen=None):
